@@ -22,7 +22,7 @@ RULE = (
     "(unwrap/group/identity removal) that changed the circuit."
 )
 PROBES = ["pair_refused_as_incompatible", "insert2_done", "group_changed", "unwrap_changed", "rmid_changed",
-          "replace_done", "auto_register_added", "remove_two_qubit", "group_with_measurement_on_wire"]
+          "replace_done", "auto_register_added", "remove_two_qubit", "group_with_measurement_on_wire", "started_from_solver_circuit"]
 REAL = ["graphiq.circuit.circuit_dag.CircuitDAG (all edit methods, find_incompatible_edges, sequence, validate)",
         "graphiq.circuit.ops", "graphiq.circuit.register"]
 STUB = []
@@ -68,10 +68,21 @@ def gen_case(run_seed, tier):
             hist.append(["reg", wl.choice("epc")])
         else:
             hist.append([k])
-    return {"ne": ne, "np": np_, "nc": nc, "history": hist}
+    case = {"ne": ne, "np": np_, "nc": nc, "history": hist}
+    if sz.random() < 0.2:
+        # start from a solver-made circuit instead of an empty one
+        from sim import graphs
+
+        g, _ = graphs.random_graph(sz, 2, 5, connected=sz.random() < 0.7, allow_isolated=False)
+        case["start"] = {"n": g[0], "edges": [list(e) for e in g[1]]}
+    return case
 
 
 def simplify(case):
+    if case.get("start"):
+        c = dict(case)
+        c.pop("start")
+        yield c
     for key in ("ne", "np", "nc"):
         lo = 1 if key == "ne" else 0
         if case[key] > lo:
@@ -310,8 +321,31 @@ def resync(m, circ):
 # ------------------------------------------------------------------------------------------------ run
 def run_case(case):
     ctx = Ctx(ID)
-    circ = gq.CircuitDAG(n_emitter=case["ne"], n_photon=case["np"], n_classical=case["nc"])
-    m = Model(case["ne"], case["np"], case["nc"])
+    circ = None
+    if case.get("start"):
+        try:
+            from graphiq.backends.stabilizer.compiler import StabilizerCompiler
+            from graphiq.metrics import Infidelity
+            from graphiq.solvers.time_reversed_solver import TimeReversedSolver
+            from graphiq.state import QuantumState
+            from sim import graphs
+
+            tg = QuantumState(graphs.to_nx((case["start"]["n"], [tuple(e) for e in case["start"]["edges"]])), rep_type="g")
+            cp = StabilizerCompiler()
+            cp.measurement_determinism = 1
+            sol = TimeReversedSolver(target=tg, metric=Infidelity(tg), compiler=cp)
+            sol.solve()
+            circ = sol.result[1]
+            m = Model(circ.n_emitters, circ.n_photons, circ.n_classical)
+            resync(m, circ)
+            ctx.probe("started_from_solver_circuit")
+        except core.HarnessError:
+            raise
+        except Exception:
+            circ = None  # the solver's own failures are C02's subject
+    if circ is None:
+        circ = gq.CircuitDAG(n_emitter=case["ne"], n_photon=case["np"], n_classical=case["nc"])
+        m = Model(case["ne"], case["np"], case["nc"])
     did = {"ins2": 0, "rm": 0, "rw": 0}
     ok = check_invariants(ctx, -1, circ, m, "init")
     for step, st in enumerate(case["history"]):
